@@ -337,7 +337,7 @@ func (g *envTypeGen) genStruct(depth int, path, words []string) reflect.Type {
 					fwords = append([]string{}, words...)
 				}
 			}
-			saveNP := g.np
+			saveNP, nLeaves := g.np, len(g.leaves)
 			if !f.Anonymous {
 				g.np = append(append([]string{}, g.np...), ns.name)
 			}
@@ -352,6 +352,7 @@ func (g *envTypeGen) genStruct(depth int, path, words []string) reflect.Type {
 					g.flat = map[string]bool{}
 				}
 				if g.flat[flatName] {
+					g.leaves = g.leaves[:nLeaves] // the dropped struct's leaves go with it
 					continue
 				}
 				g.flat[flatName] = true
